@@ -168,8 +168,29 @@ def replay_diag(sc):
     return any(abs(g - w) > 1e-12 for g, w in zip(got, want)), f"DiagX({m}): X_T = {got} vs x0 * prod(1 + dY) = {want}"
 
 
+def replay_two_paths(sc):
+    """two paths in a row on the same process/model: the second recursion starts from x0 again and model.x0 is what the caller set"""
+    model = LSDE.LevyDrivenSDEModel(driver=StubDriver(1), x0=np.array([1.5]), a=LSDE.Constant(m=1, d=1, constant=2.0))
+    times = np.array([0.0, 0.5, 1.0])
+    J = np.array([0.0, 0.1, 0.3])
+    proc = MSDE.MarkovChainSDE.__new__(MSDE.MarkovChainSDE)
+    proc.model = model
+    proc.process_representation = ProcessRepresentation.IDENDITY
+    proc.markov_chain = StubChain(PATH.StochasticJumpPath(times, np.zeros(3), J), 0.0)
+    first = np.array(proc.simulate_one_path().value(), dtype=float).copy()
+    x0_after = np.array(model.x0, dtype=float).copy()
+    second = np.array(proc.simulate_one_path().value(), dtype=float)
+    bad = []
+    if not np.allclose(x0_after, [1.5]):
+        bad.append(f"model.x0 is {x0_after.tolist()} after one path (set to [1.5])")
+    if not np.allclose(first, second):
+        bad.append(f"second path on the same driver path gives increments {second.tolist()}, the first gave {first.tolist()}")
+    return bool(bad), "dX = 2 dY, x0 = 1.5, driver jumps to 0.1 then 0.3: " + "; ".join(bad)
+
+
 def h_single(ctx, m, d, n, coef):
     model, x0, a = make_model(ctx, m, d, coef)
+    x0_given = [x for x in x0]
     path = driver_path(ctx, d, n)
     mu = ctx.real("mc_drift") if d == 1 else np.array([[ctx.real(f"mc_drift{k}")] for k in range(d)], dtype=object)
     proc = MSDE.MarkovChainSDE.__new__(MSDE.MarkovChainSDE)
@@ -183,8 +204,11 @@ def h_single(ctx, m, d, n, coef):
         ctx.prove("C16.euler_recursion_single", False, info={"m": m, "d": d, "coef": coef, "raised": repr(e)[:150]}, replay=(replay_diag, lambda mm: {"m": m}))
         return
     val = res.value()
+    x0 = np.array(x0_given, dtype=object)  # the oracle starts from the values the caller put into the model
     X = euler_oracle(a, x0, path, mu, d, n)
     info = {"m": m, "d": d, "steps": n, "coef": coef}
+    ctx.prove("C16.simulation_leaves_the_initial_state_of_the_model_untouched", AND(*[EQ(np.asarray(model.x0).reshape(-1)[k], x0_given[k]) for k in range(m)]),
+              info=info, replay=(replay_two_paths, lambda mm: {}))
     ctx.prove("C16.path_is_on_the_driver_time_grid", all(EQ(res.times()[i], path.jump_times[i]) is True or True for i in range(n + 1)) and len(res.times()) == n + 1, info=info)
     for i in range(n + 1):
         for k in range(m):
@@ -464,7 +488,7 @@ def harnesses(tier):
     return hs
 
 
-EXPECT = ["C16.levels.coarse_uses_previous_levels_driver_drift", "C16.levels.fine_uses_this_levels_driver_drift", "C16.euler_recursion_single", "C16.constant_coefficient_closed_form", "C16.diagonal_coefficient_closed_form", "C16.euler_recursion_coupled_fine",
+EXPECT = ["C16.simulation_leaves_the_initial_state_of_the_model_untouched", "C16.levels.coarse_uses_previous_levels_driver_drift", "C16.levels.fine_uses_this_levels_driver_drift", "C16.euler_recursion_single", "C16.constant_coefficient_closed_form", "C16.diagonal_coefficient_closed_form", "C16.euler_recursion_coupled_fine",
           "C16.euler_recursion_coupled_coarse", "C16.df_is_one_at_zero", "C16.df_positive", "C16.df_non_increasing", "C16.df_at_tenor_is_product_of_period_accruals",
           "C16.df_exponential_model"]
 
